@@ -55,8 +55,12 @@ def scalar_api_replay(chk, op, nargs, spec, key):
     ops, meta = [], []
     names = ["a", "b", "c"][:nargs]
     pairs = ptreplay.montgomery_pairs(400) if nargs >= 2 else []
+    edge = [0, 1, L - 1, 2, L - 2, 2**252, (L - 1) // 2, (L + 1) // 2]
+    combos = list(itertools.product(edge[:4] if nargs == 3 else edge, repeat=nargs))
     for t in range(200 + len(pairs)):
         vals = {n: (rng.choice(specials) if rng.random() < 0.6 else rng.randrange(L)) for n in names}
+        if t < len(combos) and t < 128:
+            vals = dict(zip(names, combos[t]))
         if t >= 200:
             # raw Montgomery limb values (A, B) with a structured pre-subtraction product: the encoded scalars are A/R, B/R
             A_, B_ = pairs[t - 200]
@@ -83,7 +87,9 @@ def scalar_api_replay(chk, op, nargs, spec, key):
         o = [int(x) for x in r["slots"][args[0]][2:].split(",")]
         got = sum(x << (64 * i) for i, x in enumerate(o))
         want = spec(*[vals[a] for a in args[1:]]) % L
-        if got >= L or got * pow(R, L - 2, L) % L != want:
+        if got >= L:
+            return dict(what="Scalar.%s(%s): result limbs hold %d >= l (not a reduced scalar; Equal and limb comparisons misbehave)" % (op, ",".join(args), got), op=op, args=args, vals={k: str(v) for k, v in vals.items()})
+        if got * pow(R, L - 2, L) % L != want:
             return dict(what="Scalar.%s(%s) = %d, expected %d" % (op, ",".join(args), got * pow(R, L - 2, L) % L, want), op=op, args=args, vals={k: str(v) for k, v in vals.items()})
         for n in set(args[1:]):
             if n != args[0] and r["slots"][n] != ops[0]["init"].get(n, r["slots"][n]) and False:
@@ -110,7 +116,11 @@ def api_op(base, chk, meth, nargs, spec_lf, spec_py):
             objs[n], vals[n] = h.scalar(n)
         paths = h.ex.call(fname, [objs[a] for a in args], h.path)
         if len(paths) != 1 or paths[0].outcome[0] != "ret":
-            chk.note_inconclusive("%s[%s]: %s" % (meth, pname, [p.outcome for p in paths]))
+            if pname == "distinct" and meth in ("Add", "Subtract", "Negate", "Set", "Multiply", "MultiplyAdd"):
+                chk.extra.setdefault("limb_level_fallback", []).append(meth)
+                api_op_limbs(base, chk, meth, nargs, "mul" if meth.startswith("Multiply") else spec_py[0], spec_py[1])
+            else:
+                chk.note_inconclusive("%s[%s]: %s" % (meth, pname, [p.outcome for p in paths]))
             continue
         p = paths[0]
         got = h.val(p, objs[args[0]])
@@ -126,6 +136,45 @@ def api_op(base, chk, meth, nargs, spec_lf, spec_py):
                 o.verdict = "violated" if hit else "sat-unreplayed"
         if hit:
             chk.violation("Scalar." + meth, hit["what"], hit)
+
+
+def api_op_limbs(base, chk, meth, nargs, kind, spec_py):
+    """fallback when the abstract scalar mode cannot follow the body (the method manipulates the limbs itself instead of
+    calling the fiat routines): the method is executed at limb level in Int-LF, the fiat routines from their SSA.
+    Goals on raw Montgomery integers (x -> x*R is additive): result reduced (< l) and congruent to the specification."""
+    from sym.kernels import SK, sval, L as L_, R256
+    prog = base.prog
+    fname = prog.find("Scalar)." + meth)
+    k = SK(base, chk, fname, label="Scalar.%s [limb level]" % meth)
+    ST = prog.T(E + "Scalar")
+
+    def scalar(name, below=True):
+        limbs = [k.dom.input("%s[%d]" % (name, i), 0, (1 << 64) - 1) for i in range(4)]
+        k.inputs[name] = limbs
+        if below:
+            k.path.pc.append(LFCond("<=", sval(limbs) - (L_ - 1)))
+        return X.Ptr(k.ex.new_obj(k.path, ST, name=name, init=[list(limbs)])), limbs
+    recv, _ = scalar("s")
+    ins = [scalar(n) for n in ["x", "y", "z"][:nargs]]
+    paths = k.ex.call(fname, [recv] + [a for a, _ in ins], k.path)
+    bad = [p for p in paths if p.outcome[0] != "ret"]
+    chk.add(Ob("Scalar.%s [limb level]: returns normally on every path (%d)" % (meth, len(paths)), "unsat" if paths and not bad else "sat", 0, [fname], "Int-LF", detail=str([p.outcome for p in bad][:2])))
+    vals = [sval(l) for _, l in ins]
+    for i, p in enumerate(p for p in paths if p.outcome[0] == "ret"):
+        out = k.limbs(p, X.Ptr(recv.obj, (0,)))
+        k.goal(p, "le", "path %d: result limbs are a reduced scalar (< l)" % i, sval(out), L_ - 1)
+        if kind == "mul":
+            prod = k.dom.mul(p, vals[0], vals[1])
+            p.pc.append(LFCond("<=", prod - (L_ - 1) ** 2))
+            p.pc.append(LFCond("<=", -prod))
+            want = prod + (vals[2].scale(R256) if nargs == 3 else LF())
+            k.goal(p, "congr", "path %d: result*R = x*y%s (mod l)" % (i, "+z*R" if nargs == 3 else ""), sval(out).scale(R256), want, L_)
+        else:
+            want = {"Add": lambda: vals[0] + vals[1], "Subtract": lambda: vals[0] - vals[1], "Negate": lambda: -vals[0], "Set": lambda: vals[0]}[meth]()
+            k.goal(p, "congr", "path %d: result = %s (mod l)" % (i, kind), sval(out), want, L_)
+        k.goal(p, "eq", "path %d: returns the receiver" % i, 0 if p.outcome[1][0] == recv else 1, 0)
+    k.replay = lambda models, seed: scalar_api_replay(chk, meth, nargs, spec_py, meth)
+    k.settle("Scalar." + meth)
 
 
 def k_invert(base, chk):
